@@ -91,7 +91,15 @@ func checkLoose(rt fataler, rec *evid.Rec, c *resgen.LooseCase) {
 	if c.Balanced && !accepted {
 		rec.Class("loose:balanced-but-rejected")
 	}
-	rec.Case(accepted && executed > 0 && !c.Balanced, "loose", c.Prog.Steps[1].Source)
+	// non-trivial: the checker had to decide about a construct whose evaluation is only potential
+	interesting := false
+	for _, k := range c.Constructs {
+		if k != "plain-destroy" && k != "plain-save" {
+			interesting = true
+		}
+	}
+	_ = executed
+	rec.Case(interesting, "loose", c.Prog.Steps[1].Source)
 	if accepted && !c.Balanced && rec.WantSample("checker-decides-accepted") {
 		rec.Sample("checker-decides-accepted", map[string]any{"constructs": c.Constructs, "source": c.Prog.Steps[1].Source})
 	}
